@@ -122,17 +122,27 @@ def probe_texts(seed, cls):
 def answer(seed, cls, texts):
     from Bio.Seq import Seq
     from moclo.record import CircularRecord
+    from Bio.SeqRecord import SeqRecord
 
     out = []
     for s in texts:
         e = cls(CircularRecord(Seq(s), "p"))
         try:
             if e.is_valid():
-                out.append([True, str(e.overhang_start()), str(e.overhang_end()), str(e.target_sequence().seq)])
+                ans = [True, str(e.overhang_start()), str(e.overhang_end()), str(e.target_sequence().seq)]
             else:
-                out.append([False])
+                ans = [False]
         except Exception as ex:
-            out.append(["raised", type(ex).__name__])
+            ans = ["raised", type(ex).__name__]
+        # the same plasmid handed over as a plain SeqRecord, without any annotation (the library then assumes a plasmid) and
+        # declared circular: verdict and overhangs (a plain record cannot be rotated, so no target)
+        for ann in (None, {"topology": "circular"}):
+            e = cls(SeqRecord(Seq(s), "p", annotations=ann))
+            try:
+                ans.append([True, str(e.overhang_start()), str(e.overhang_end())] if e.is_valid() else [False])
+            except Exception as ex:
+                ans.append(["raised", type(ex).__name__])
+        out.append(ans)
     return out
 
 
